@@ -256,6 +256,23 @@ struct Driver {
         h = fnv(h, k.deferred_deletion_enabled()); h = fnv(h, k.fast_deletion_enabled());
         h = fnv(h, k.has_vertex_bottom_up_incidences()); h = fnv(h, k.has_edge_bottom_up_incidences()); h = fnv(h, k.has_face_bottom_up_incidences());
         h = fnv(h, k.n_logical_vertices()); h = fnv(h, k.n_logical_edges()); h = fnv(h, k.n_logical_faces()); h = fnv(h, k.n_logical_cells());
+        // the three bottom-up incidence caches (outgoing_hes_per_vertex_, incident_hfs_per_he_, incident_cell_per_hf_), read
+        // through the circulators / incident_cell() when the cache is switched on (switched off it is cleared and never read).
+        // Order inside one list is canonicalised: sorted per vertex (unspecified), rotated to its least element per halfedge
+        // (only the cyclic order is specified, C09)
+        if (k.has_vertex_bottom_up_incidences())
+            for (size_t i = 0; i < k.n_vertices(); ++i) {
+                std::vector<int> l; for (auto it = k.voh_iter(VertexHandle((int)i)); it.valid(); ++it) l.push_back(it->idx());
+                std::sort(l.begin(), l.end()); h = fnv(h, l.size()); for (int x : l) h = fnv(h, (uint64_t)x);
+            }
+        if (k.has_edge_bottom_up_incidences())
+            for (size_t i = 0; i < k.n_halfedges(); ++i) {
+                std::vector<int> l; for (auto it = k.hehf_iter(HalfEdgeHandle((int)i)); it.valid(); ++it) l.push_back(it->idx());
+                if (!l.empty()) std::rotate(l.begin(), std::min_element(l.begin(), l.end()), l.end());
+                h = fnv(h, l.size()); for (int x : l) h = fnv(h, (uint64_t)x);
+            }
+        if (k.has_face_bottom_up_incidences())
+            for (size_t i = 0; i < k.n_halffaces(); ++i) h = fnv(h, (uint64_t)(int64_t)k.incident_cell(HalfFaceHandle((int)i)).idx());
         return h >> 4;     // keep it comfortably inside every integer type the judge uses
     }
 
